@@ -1,6 +1,6 @@
 (* C15: per-block price band.  Statements only. *)
 From MP.Model Require Import Prelude U128 SInt Feed Vamm VammOps Token World Engine Runtime.
-From MP.Proofs Require Import Tactics SIntFacts VammFacts SwapFacts MoreFacts.
+From MP.Proofs Require Import Tactics SIntFacts VammFacts SwapFacts MoreFacts BandFacts.
 
 (* with a non-zero limit, a trade that may not go over the limit (every opening / increasing /
    reducing swap_input of OpenPosition) is accepted only if the price before it and the price after
@@ -84,3 +84,21 @@ Theorem C15_close_whole_or_exact_fraction : forall w t v lim w' subs,
      else subs = [swap_output_msg v (direction_to_side (p_dir p)) (sval (p_size p)) lim CLOSE_ID]).
 Proof. exact close_position_choice. Qed.
 Print Assumptions C15_close_whole_or_exact_fraction.
+
+(* END TO END.  A successful OpenPosition transaction (the whole message tree: swap, reply, a reversal's
+   second swap and reply, fee and margin transfers, insurance-fund draws; any fault index) on a vAMM with a
+   non-zero limit either leaves the sender without a position on that vAMM, or leaves that vAMM's spot price
+   inside the band [lower, upper] that its state before the transaction defines around the previous block's
+   reference price.  `stable`: the reference snapshot exists (the newest snapshot is from an earlier block,
+   or there is an older one). *)
+Theorem C15_open_position_ends_in_band : forall f w t v s m l lim funds w' vm0,
+  exec_op f w (OEngine t (EOpenPosition v s m l lim) funds) = Ok w' ->
+  zfind v (w_vamms w) = Some vm0 -> wfv vm0 -> v_fluct (vc vm0) <> 0 -> stable vm0 (w_env w) ->
+  0 <= m -> 0 <= l -> 0 < e_dec (ec (w_eng w)) ->
+  (forall p, find_position (w_eng w) v t = Some p -> 0 <= sval (p_size p)) ->
+  (exists vm', zfind v (w_vamms w') = Some vm' /\
+     exists upper lower p, price_boundaries vm0 (w_env w) = Ok (upper, lower) /\
+       spot_of (v_dec (vc vm')) (v_q (vs vm')) (v_b (vs vm')) = Ok p /\ in_band p upper lower) \/
+  sval (p_size (read_position (w_eng w') v t)) = 0.
+Proof. exact open_position_ends_in_band. Qed.
+Print Assumptions C15_open_position_ends_in_band.
